@@ -299,15 +299,22 @@ func c23FreeRun(rep *mc.Report) {
 			}
 			c := newCache2(h.Handler, 0, loader)
 			base := ((time.Now().Unix() - 7200) / 120) * 120
-			qs := []*queryBuilder{{cacheKey: "K0"}, {cacheKey: "K1"}}
+			qs := []*queryBuilder{{cacheKey: "K0"}, {cacheKey: "K1"}, {cacheKey: "K2"}}
 			var wg sync.WaitGroup
-			for _, prog := range sc.threads {
+			progs := append([][]c23Op{}, sc.threads...)
+			if len(sc.setup) > 0 { // the setup phase runs before the concurrent threads start
+				progs = append([][]c23Op{sc.setup}, progs...)
+			}
+			for pi, prog := range progs {
 				prog := prog
 				wg.Add(1)
-				go func() {
+				run := func() {
 					defer wg.Done()
 					for _, op := range prog {
 						switch op.kind {
+						case c23LimitsFrac:
+							ri := c.runtimeInfo()
+							c.setLimits(cache2Limits{maxSize: ri.size() * 9 / 10})
 						case c23Get:
 							lod := data_model.LOD{Version: Version6, StepSec: 1, FromSec: base + op.from, ToSec: base + op.to, Location: time.UTC}
 							_, _ = c.Get(context.Background(), h, qs[op.key], lod, false)
@@ -326,7 +333,12 @@ func c23FreeRun(rep *mc.Report) {
 							c.reset()
 						}
 					}
-				}()
+				}
+				if pi == 0 && len(sc.setup) > 0 {
+					run()
+				} else {
+					go run()
+				}
 			}
 			wg.Wait()
 			c.reset()
